@@ -22,7 +22,15 @@ func Minimize(t *testing.T, h *Harness, spec RunSpec, orig Result, budget time.D
 		s.Ops = ops
 		s.KeepLog = false
 		r := RunOne(t, h, s)
-		return r, same(r)
+		if !same(r) {
+			return r, false
+		}
+		for k := 1; k < h.MinimizeReps; k++ {
+			if r2 := RunOne(t, h, s); !same(r2) {
+				return r2, false
+			}
+		}
+		return r, true
 	}
 	// First: the applied ops of the original run, replayed (drops skipped/trailing ones).
 	if r, ok := try(best.Ops); ok {
